@@ -663,6 +663,10 @@ class Opaque:
         return f"<opaque {self.what}>"
 
 
+class WalkFiles(V.SymArr):
+    """The `filenames` list of one os.walk step (its own type so that a loop over it can be recognised wherever it sits)."""
+
+
 class WalkGen(GhostGen):
     """os.walk(top): N directories (top first); directory k has NF(k) = PRE(k+1) - PRE(k) files FNAME(k, j);
     FLAT(i) is the i-th file of the whole enumeration (full path).  `meta` is the position (in directory 0 = top) of the
@@ -716,7 +720,8 @@ class WalkGen(GhostGen):
                                       self.FLAT(self.PRE(kt) + jt) == JOIN(self.DIRPATH(kt), self.FNAME(kt, jt))))
                 return Sym(self.FNAME(kt, jt))
 
-            files = V.SymArr((Sym(nf),), fname, "str", pylist=True)
+            files = WalkFiles((Sym(nf),), fname, "str", pylist=True)
+            files.walk = self
             return (Sym(self.DIRPATH(kt)), Opaque("dirnames"), files)
 
         return Sym(self.N), getter
